@@ -736,6 +736,14 @@ Definition enc_warning (e : env) (s : st) : st :=
   | None => s
   end.
 
+(* _tailf: check_encoding, banner, then the HTTP streaming request (the harness
+   replaces http_client by a recorder: the request shows up as the pseudo call
+   "_http_get" and consumes no oracle entry); nothing else is printed and the exit
+   status is not touched *)
+Definition tailf (e : env) (path : string) (s : st) : res unit :=
+  let s1 := say "==> Press Ctrl-C to exit <==" (enc_warning e s) in
+  Ok tt (mkst (orc s1) (out s1) (ex s1) (("_http_get", [AS path]) :: calls s1)).
+
 Definition err1 (msg : string) (s : st) : res unit := Ok tt (setex LSBInit_GENERIC (say msg s)).
 
 Definition str_tail (s : string) : string := match s with "" => "" | String _ r => r end.
@@ -772,7 +780,7 @@ Definition do_tail (e : env) (a : string) : st -> res unit :=
             end in
         match nbytes with
         | None => err1 ("Error: bad argument " ++ match modifier with Some m => m | None => "" end) s
-        | Some None => Ok tt (outp LUnmodelled s)
+        | Some None => tailf e ("/logtail/" ++ name ++ "/" ++ channel) s
         | Some (Some n) =>
           let s0 := enc_warning e s in
           match rpc (if channel =s "stdout" then "readProcessStdoutLog" else "readProcessStderrLog")
@@ -809,7 +817,7 @@ Definition do_maintail (e : env) (a : string) : st -> res unit :=
     | [x] =>
       if starts_dash x then
         let what := str_tail x in
-        if what =s "f" then Ok tt (outp LUnmodelled s)
+        if what =s "f" then tailf e "/mainlogtail" s
         else match py_int what with
              | Some n => read n
              | None => err1 ("Error: bad argument " ++ x) s
@@ -849,6 +857,25 @@ Definition do_open (e : env) (a : string) (s : st) : res unit :=
     end
   else err1 "ERROR: url must be http:// or unix://" s.
 
+(* do_fg up to the point where it becomes interactive *)
+Definition do_fg (e : env) (a : string) : st -> res unit :=
+  with_upcheck (e_url e) (fun s =>
+    match py_split a with
+    | [] => usage_error "ERROR: no process name supplied" LSBInit_GENERIC "fg" s
+    | [n] =>
+      match rpc "getProcessInfo" [AS n] s with
+      | Ok (VInfo i) s1 =>
+        if i_state i =? PS_RUNNING then Ok tt (outp LUnmodelled s1)
+        else err1 "ERROR: process not running" s1
+      | Ok _ s1 => Exn XType s1
+      | Exn (XFault c fs) s1 =>
+        if c =? F_BAD_NAME then err1 "ERROR: bad process name supplied" s1
+        else Ok tt (say ("ERROR: " ++ exn_str (XFault c fs)) s1)     (* exit status left alone *)
+      | Exn x s1 => Exn x s1
+      end
+    | _ => err1 "ERROR: too many process names supplied" s
+    end).
+
 Definition do_quit (e : env) (a : string) (s : st) : res unit := Ok tt (say "" s).
 
 (* ------------------------------------------------------------------- onecmd *)
@@ -873,7 +900,8 @@ Definition action_of (e : env) (cmd : string) : option (string -> st -> res unit
   if cmd =s "version" then Some (do_version e) else
   if cmd =s "open" then Some (do_open e) else
   if mem_str cmd ["quit"; "exit"; "EOF"] then Some (do_quit e) else
-  if mem_str cmd ["help"; "fg"] then Some (fun _ s => Ok tt (outp LUnmodelled s)) else
+  if cmd =s "fg" then Some (do_fg e) else
+  if cmd =s "help" then Some (fun _ s => Ok tt (outp LUnmodelled s)) else
   None.
 
 (* `except Exception:` of onecmd *)
